@@ -350,6 +350,10 @@ fn intern_iteration(pool: &[Vec<u8>], prefill: &[usize], threads: &[Vec<IOp>]) {
                         if let Some(prev) = mine.get(&v) {
                             assert!(*prev == id, "C05 stability: value #{v} interned to {prev:?} and later to {id:?}");
                         }
+                        // a dense index the moment it is handed out
+                        let l = TId::table().len();
+                        assert!((id.index() as usize) < l, "C05 density: id {id:?} of value #{v} was handed out while the table length is {l}");
+                        assert!(TId::from_index_checked(id.index()) == Some(id), "C05 density: from_index_checked does not know the id {id:?} that intern just returned");
                         mine.insert(v, id);
                         published.lock().unwrap().push((v, id));
                     }
